@@ -62,7 +62,9 @@ def big_value(r, kind, size):
             v = graphs.Plain(nxt=v, tag='t%d' % i)
         return v
     if kind == 'long_str':
-        unit = r.pick(['abcdefghij', 'é', '日本語', '\U0001F600x', 'aß'])
+        # (also text in decomposed form: letters followed by combining marks, which are code points of their own)
+        unit = r.pick(['abcdefghij', 'é', '日本語', '\U0001F600x', 'aß', 'e\u0301', 'a\u0300\u0301\u0302\u0303\u0304',
+                       'o\u0308\u0323'])
         return (unit * (size // len(unit) + 1))[:size]
     if kind == 'long_str_obj':
         class Loud:
